@@ -150,6 +150,26 @@ def run(ctx):
                         break
             if bad:
                 ctx.fail('parse_file misread: %s; text:\n%s' % (bad, text), case, sig=dict(kind='misread'))
+        # the same file OBJECT used again - probed with can_parse_file() and then parsed (what the file type sniffer and then a reader
+        # do), parsed twice, or peeked at first: the parse is the same as on a fresh object
+        if got == 'ok' and n % 4 == 0:
+            fo = io.StringIO(text)
+            try:
+                hist_ = ['can_parse_file, parse_file', 'parse_file twice', 'readline, parse_file'][(n // 4) % 3]
+                if hist_.startswith('can'):
+                    DAT_parser.can_parse_file(fo)
+                elif hist_.startswith('parse'):
+                    DAT_parser.parse_file(fo, ident='verif')
+                else:
+                    fo.readline()
+                fa2 = DAT_parser.parse_file(fo, ident='verif')
+                same = [c.ident for c in fa2.channels] == [c.ident for c in fa.channels] and all(
+                    len(a.array) == len(b.array) and all(a.array[i][0] == b.array[i][0] for i in range(len(a.array))) for a, b in zip(fa.channels, fa2.channels))
+                if not same:
+                    ctx.fail('parse_file on a file object used before (%s) differs from the parse of a fresh object; text:\n%s' % (hist_, text), case, sig=dict(kind='reuse'))
+            except Exception as e:
+                ctx.fail('parse_file on a file object used before (%s) raised %s: %s; a fresh object parses; text:\n%s' % (hist_, type(e).__name__, e, text), case,
+                         sig=dict(kind='reuse'))
         # can_parse_file: never raises; True for an uncorrupted text with >= 1 row
         try:
             cp = DAT_parser.can_parse_file(io.StringIO(text))
